@@ -988,8 +988,11 @@ func c20e(c *Ctx) {
 					returned = returned || (len(r.Results) == 1 && r.Results[0] == mu.Map)
 				}
 				k := c.term(g, mu.Key)
+				// the key seen from Emit: the helper may be given the list, or read it from the emitter it is given
+				kEmit := c.substParams(emit, hc, k)
+				viaEmitter := returned && strings.HasPrefix(kEmit, "$0.program.Texts[") && strings.HasSuffix(kEmit, "].Name")
 				for i, a := range hc.Call.Args {
-					if returned && strings.HasPrefix(k, fmt.Sprintf("$%d[", i)) && strings.HasSuffix(k, "].Name") && c.term(emit, a) == "$0.program.Texts" {
+					if (returned && strings.HasPrefix(k, fmt.Sprintf("$%d[", i)) && strings.HasSuffix(k, "].Name") && c.term(emit, a) == "$0.program.Texts") || (viaEmitter && i == 0 && !okTexts) {
 						okTexts = true
 						textMap = hc
 						if w, skip := loopSkip(g, mu); skip {
